@@ -133,7 +133,7 @@ AnyFail == \E t \in Tasks : done[t] = "fail"
 
 NothingCanFail == FailSet = {} /\ died = {} /\ (BadLoad \cap Cached0 = {} \/ cfg.bust)
 C01_Returns == (phase # "running" /\ intCount = 0 /\ NothingCanFail) => phase = "returned"    \* an acyclic all-succeeding set returns
-C01_Keys   == (phase = "returned" /\ AllOk) => outKeys = Dedup(cfg.req)
+C01_Keys   == (phase = "returned" /\ (AllOk \/ (NothingCanFail /\ intCount = 0))) => outKeys = Dedup(cfg.req)
 C01_Values == phase = "returned" =>
                 /\ Len(outVals) = Len(outKeys)
                 /\ \A i \in DOMAIN outKeys : outKeys[i] \in Tasks /\ outVals[i] = Val(outKeys[i])
